@@ -34,13 +34,23 @@ def probe_frame(rng, obj, X, mode):
             vals = [rng.choice(pool) for _ in range(n)]
             if mode in ("nan", "mixed") and n:
                 vals[rng.randrange(n)] = None
-            cols[raw] = pd.Series(vals, dtype=float)
+            # 1 in 5: the same numbers in an object column (records, `astype(object)`); missing cells as None or nan
+            if rng.random() < 0.2:
+                vals = [(float("nan") if rng.random() < 0.5 else None) if v is None else v for v in vals]
+                cols[raw] = pd.Series(vals, dtype=object)
+            else:
+                cols[raw] = pd.Series(vals, dtype=float)
         else:
             known = [v for v in gl.values() if v != obj.str_nan]
             pool = list(known) if known else ["zz"]
             vals = [rng.choice(pool) for _ in range(n)]
             if mode in ("unseen", "mixed") and n:
-                vals[rng.randrange(n)] = rng.choice(["zz_unseen", 9.0, 77, "__OTHER__"])
+                # an unseen value: a fresh one, or (1 in 2 when there is one) a value this feature never saw but another
+                # qualitative feature of the same object knows
+                foreign = [v for g in obj.qualitative_features if g != f for v in obj.values_orders[g].values()
+                           if v not in gl.values() and v not in (obj.str_nan, obj.str_default)]
+                vals[rng.randrange(n)] = rng.choice(foreign) if (foreign and rng.random() < 0.5) else \
+                    rng.choice(["zz_unseen", 9.0, 77, "__OTHER__"])
             if mode == "all_unseen":
                 vals = [rng.choice(["u1", "u2", 5.5]) for _ in range(n)]
             if mode in ("nan", "mixed") and n:
